@@ -810,9 +810,11 @@ def clause_next_height_siblings(R, F):
         is_db = fn.j.get("self_ty") == roles.database_struct(F)["name"]
         # classify every returned value as  k + c
         forms = []
-        for t in vals:
-            l = lin(t)
-            forms.append((l, show(t)))
+        for t0 in vals:
+            # `Ok(if c { 1 } else { 0 })` returns a choice of values: each alternative is a case of its own
+            for t in (t0[1] if t0[0] == "phi" else (t0,)):
+                l = lin(t)
+                forms.append((l, show(t)))
         for l, s in forms:
             atoms = [show(a) for a in l.terms]
             R.samples.append({"rule": "NEXT-HEIGHT", "fn": fn.name, "returns": "%s  [k=%d]" % (s[:120], l.k)})
